@@ -84,7 +84,10 @@ func (en *env) coerceTo(tv TV, t types.Type) TV {
 	}
 	if tv.T != nil {
 		if b, ok := tv.T.(*types.Basic); ok && b.Kind() == types.UntypedNil && t != nil {
-			return TV{V: r.coerce(tv.V, nil, t), T: t}
+			if _, isPtr := t.Underlying().(*types.Pointer); isPtr {
+				return TV{V: r.coerce(tv.V, nil, t), T: t}
+			}
+			return tv // nil against slices/interfaces/maps/funcs is compared by valuesEqual
 		}
 	}
 	return tv
@@ -164,6 +167,15 @@ func (en *env) eval(e ast.Expr, want types.Type) TV {
 		return en.index(x)
 	case *ast.CallExpr:
 		return en.call(x, want)
+	case *ast.TypeAssertExpr:
+		// x.(T): the boxed value, only where the dynamic type is statically known to be T
+		a := en.eval(x.X, nil)
+		iv := r.asIface(a.V)
+		t := en.typeArg(x.Type)
+		if iv.Concrete == nil || !types.Identical(iv.ConcT, t) {
+			en.errf("%s: dynamic type is not statically %s", types.ExprString(x), t)
+		}
+		return TV{V: iv.Concrete, T: t}
 	}
 	en.errf("unsupported expression %T", e)
 	return TV{}
@@ -242,6 +254,7 @@ func (en *env) object(obj types.Object) TV {
 		sp := r.E.SSAPkg[o.Pkg().Path()]
 		if sp != nil {
 			if g, ok := sp.Members[o.Name()].(*ssa.Global); ok {
+				r.E.constTableOf(g)
 				loc := Loc{Heap: "G$" + typeKey2(g), Idxs: []*smt.Term{c.IntC(1)}, T: o.Type()}
 				return TV{V: r.load(en.state(), loc), T: o.Type()}
 			}
@@ -378,6 +391,7 @@ func (en *env) addrOf(e ast.Expr) TV {
 			if obj, ok := en.pkg.Types.Scope().Lookup(x.Name).(*types.Var); ok {
 				sp := r.E.SSAPkg[obj.Pkg().Path()]
 				if g, ok := sp.Members[obj.Name()].(*ssa.Global); ok {
+					r.E.constTableOf(g)
 					loc := Loc{Heap: "G$" + typeKey2(g), Idxs: []*smt.Term{c.IntC(1)}, T: obj.Type()}
 					return TV{V: PtrV{loc}, T: types.NewPointer(obj.Type())}
 				}
@@ -554,7 +568,31 @@ func (en *env) call(x *ast.CallExpr, want types.Type) TV {
 	if id, ok := x.Fun.(*ast.Ident); ok {
 		switch id.Name {
 		case "implies__":
-			return TV{V: Scalar{c.Implies(en.evalBool(x.Args[0]), en.evalBool(x.Args[1]))}, T: types.Typ[types.Bool]}
+			ante := en.evalBool(x.Args[0])
+			if ante.IsFalse() {
+				// the consequent is not evaluated (it may be ill-formed when the antecedent is statically false)
+				return TV{V: Scalar{c.True()}, T: types.Typ[types.Bool]}
+			}
+			return TV{V: Scalar{c.Implies(ante, en.evalBool(x.Args[1]))}, T: types.Typ[types.Bool]}
+		case "arr", "off":
+			// arr(s): the backing array of slice s as an SMT array; off(s): index of s[0] in it
+			a := en.eval(x.Args[0], nil)
+			sv, ok := a.V.(SliceV)
+			if !ok {
+				en.errf("%s() of %T", id.Name, a.V)
+			}
+			if id.Name == "off" {
+				return TV{V: Scalar{sv.Off}, T: types.Typ[types.Uint64]}
+			}
+			es := r.scalarSort(sv.Base.T)
+			if es == nil {
+				en.errf("arr() of a slice with non-scalar elements")
+			}
+			h := en.state().getPV(sv.Base.Heap+"[]", r.heapSort(len(sv.Base.Idxs)+1, es))
+			for _, i := range sv.Base.Idxs {
+				h = c.Select(h, i)
+			}
+			return TV{V: Scalar{h}, T: &RawSort{S: h.Sort}}
 		case "iff__":
 			return TV{V: Scalar{c.Eq(en.evalBool(x.Args[0]), en.evalBool(x.Args[1]))}, T: types.Typ[types.Bool]}
 		case "forall__", "exists__":
